@@ -36,6 +36,7 @@ ASSUMPTIONS = ["x64; the scripted solver advances t exactly as a real one (t + d
 REQUIRED_LABELS = ["clip", "noclip", "ctrl:integral", "ctrl:pi", "branch:at_t1", "branch:beyond", "rejection", "clip_taken", "ckpt_skipped_without_step"]
 MAX_INCONCLUSIVE = 0.3
 ATTEMPT_BUDGET = 3000
+REPORT_BUDGET = 200  # interpolation reports per run (there are at most NUM_CKPT + 1 legitimate ones)
 NUM_CKPT = 5
 PIECES = 6
 
@@ -51,6 +52,7 @@ class Log:
         self.ev = []
         self.attempts = 0
         self.over = False
+        self.reports = 0
 
     def add(self, kind):
         def cb(*a):
@@ -65,12 +67,18 @@ class Log:
             self.over = True
         return np.asarray(self.over)
 
+    def report(self, kind, t, ft, tt, n):
+        """Interpolation/report events; also a watchdog against loops that spin without stepping."""
+        self.ev.append((kind, np.asarray(t).tolist(), np.asarray(ft).tolist(), np.asarray(tt).tolist(), np.asarray(n).tolist()))
+        self.reports += 1
+        return np.asarray(self.reports > REPORT_BUDGET)
+
     def take(self):
         import jax
 
         jax.effects_barrier()
         ev, over = self.ev, self.over
-        self.ev, self.attempts, self.over = [], 0, False
+        self.ev, self.attempts, self.over, self.reports = [], 0, False, 0
         return ev, over
 
 
@@ -103,14 +111,21 @@ def _runner(kind, clip, num_save):
             return S(t=state.t + dt, u=state.u + dt, num_steps=state.num_steps + 1)
 
         def interpolate_fwd(self, *, t, interp_from, interp_to):
-            jax.debug.callback(log.add("interp"), t, interp_from.t, interp_to.t, interp_to.num_steps, ordered=True)
+            import functools
+
+            spin = io_callback(functools.partial(log.report, "interp"), jax.ShapeDtypeStruct((), jnp.bool_), t, interp_from.t, interp_to.t, interp_to.num_steps, ordered=True)
             sol = S(t=t, u=interp_from.u + (t - interp_from.t), num_steps=interp_to.num_steps)
             new_from = S(t=t, u=sol.u, num_steps=interp_from.num_steps)
-            return sol, utilities.InterpResult(step_from=interp_to, interp_from=new_from)
+            # a loop that keeps reporting without stepping is ended by the harness (reported as I5)
+            step_from = S(t=jnp.where(spin, 1e30, interp_to.t), u=interp_to.u, num_steps=interp_to.num_steps)
+            return sol, utilities.InterpResult(step_from=step_from, interp_from=new_from)
 
         def interpolate_fwd_at_t1(self, *, t, interp_from, interp_to):
-            jax.debug.callback(log.add("interp_at"), t, interp_from.t, interp_to.t, interp_to.num_steps, ordered=True)
-            return interp_to, utilities.InterpResult(step_from=interp_to, interp_from=interp_to)
+            import functools
+
+            spin = io_callback(functools.partial(log.report, "interp_at"), jax.ShapeDtypeStruct((), jnp.bool_), t, interp_from.t, interp_to.t, interp_to.num_steps, ordered=True)
+            step_from = S(t=jnp.where(spin, 1e30, interp_to.t), u=interp_to.u, num_steps=interp_to.num_steps)
+            return interp_to, utilities.InterpResult(step_from=step_from, interp_from=interp_to)
 
         def userfriendly_output(self, *, solution0, solution, solution1):
             ts = jnp.concatenate([solution0.t[None], solution.t])
